@@ -63,6 +63,13 @@ META = {'C01': {'text': 'Model-based stateful property testing: random histories
          'note': 'Trusts the reference model. Two creating operations for one key in one transaction are known finding f17 and excluded by '
                  'construction (counted).',
          'technique': 'model-based stateful property testing (rapid) with reference-map oracle'},
+ 'C13': {'text': 'Fault enumeration over crash points: every (thorough) or every structurally interesting plus sampled (quick) truncation offset of '
+                 'generated snapshot files with log tails and of commit-log streams is restored/ranged and the result compared with the set of '
+                 'states the reference model allows at commit boundaries.',
+         'design_ref': 'DESIGN.md §6 C13',
+         'note': 'Trusts the reference model states recorded while the verif hooks drive transactions into the snapshot, and the s2 frame parser '
+                 'used to place boundary offsets.',
+         'technique': 'crash-point enumeration (truncation) with model-based prefix-consistency oracle (rapid-generated files)'},
  'C14': {'text': 'Fault enumeration: for each generated collection every write-call index and (for small snapshots) every byte budget at which the '
                  'destination starts failing is injected, fail-once and fail-forever, repeated on one collection to expose leaks, with error '
                  'reporting, continued usability, later healthy snapshots and fd/temp-file accounting checked after each call.',
